@@ -12,7 +12,7 @@ import traceback
 
 ROOT = os.path.dirname(os.path.dirname(os.path.abspath(__file__)))
 REPO = os.path.abspath(os.environ.get("VERIF_REPO", "/repo"))
-EVID = os.path.join(ROOT, "evidence")
+EVID = os.environ.get("VERIF_EVID_DIR") or os.path.join(ROOT, "evidence")
 PY = sys.executable
 
 ALL_PROPS = ["C%02d" % i for i in range(1, 21)]
@@ -48,12 +48,14 @@ class Ctx:
         self.extra_nontrivial = 0
         self.discard = None
         self.sample_note = None
+        self.chunk = False
 
     def begin(self):
         self.case_labels = set()
         self.is_nontrivial = False
         self.discard = None
         self.sample_note = None
+        self.chunk = False
 
     def label(self, name):
         if name not in self.case_labels:
@@ -68,6 +70,7 @@ class Ctx:
         """Sub-evaluations inside one (chunk) case, distinct by construction."""
         self.extra_evals += int(n)
         self.extra_nontrivial += int(nontrivial)
+        self.chunk = True
 
     def discard_case(self, why):
         self.discard = why
@@ -210,7 +213,8 @@ class Worker:
         if not record:
             ctx.labels, ctx.extra_evals, ctx.extra_nontrivial = saved
             return fails
-        self.evals += 1
+        if not ctx.chunk:
+            self.evals += 1
         if ctx.is_nontrivial:
             self.hashes.add(case_hash(case))
         new_labels = ctx.case_labels - self.sample_labels
